@@ -1,7 +1,7 @@
 """C07 configuration (see lib/propcfg.py for the meaning of the keys)."""
 CFG = dict(
     models=[("gen", "Gen_PanicSites"), ("model", "Arith"), ("model", "PanicSites")],
-    proofs=[("proofs", "Arith_proofs"), ("proofs", "PanicSites_proofs")],
+    proofs=[("proofs", "Arith_proofs"), ("proofs", "PanicSites_proofs"), ("proofs", "Arith_bits_proofs")],
     extract="Extract_Arith", module="arith_model", driver="drv_C07.ml", ocaml_extra=["zhelpers.ml"],
     trusted_base=[
         "Go semantics assumed by the primitives of coq/model/Arith.v: int64 wrap-around, truncated / and % (min/-1 wraps), shift counts >= 64 give 0 and negative counts panic, "
@@ -26,7 +26,7 @@ CFG = dict(
                "grammar-generated programs, byte mutations of the shipped examples and tests, and every registered extension applied to every kind of value with 0..max+1 arguments, all evaluated "
                "like repl.EvalOne under recover(); any panic other than the two guards is a failure with signature go-panic:<run-time error class>:<grol function> or ext-panic:<name>:<argument kinds>. "
                "The model is tied to /repo by the correspondence (integer operator x operand pairs incl. all boundary values, slice/index/assignment triples exhaustive for len <= 6 and bounds in "
-               "[-8,8] plus int64 extremes, repeat/concat sizes, validation of random and of all registered extension signatures): model and implementation agree on every case.",
+               "[-8,8] plus int64 extremes, repeat/concat sizes, validation of random and of all registered extension signatures): model and implementation agree on every case. ADDED (theorem growth): C07_int_ops_closed - on int64 operands EVERY integer operator, the bitwise & | ^ included (which Go does not wrap), yields an int64, and a range has int64 bounds in order, so a Val of the model always denotes a value Go's int64 can hold; it rests on C07_int64_is_sign_extension (z is an int64 iff every bit from 63 on repeats bit 63), proved for all Z.",
     level_note="Trusted: Coq kernel, extraction (ExtrOcamlBasic), OCaml driver, Go harness, translator; axioms: none (Print Assumptions: closed). The evaluator as a whole is NOT modelled: "
                "closures, environments, macros, printing, extension callbacks are covered by the inventory + sweep only. Float arithmetic cannot panic in Go and is not modelled. "
                "Cmp (quote(1)==quote(2)) and the register file belong to C12 / C05 and are listed there.",
